@@ -247,7 +247,7 @@ fn explore(ctx: &mut Ctx) {
     let thorough = ctx.tier.is_thorough();
 
     // Small scope.
-    let n = ctx.tier.pick(10, 13);
+    let n = ctx.tier.pick(12, 13);
     for len in 0..=n {
         for word in 0..(1u64 << len) {
             let c = Case::Small { len, word };
